@@ -625,6 +625,8 @@ def _check_name(exp_text, got_text, path):
         return "annotation_attachment"
     if exp_text.startswith(("(Bin.", "(Un.", "Bin.", "Un.")) and got_text.startswith(("(Bin.", "(Un.", "Bin.", "Un.")):
         return "operator_identity"
+    if exp_text.startswith("(Bin.Power ") and got_text.startswith("(Cast (Bin.Concat "):
+        return "operator_identity"          # `**` mapped to concatenation (typed ToDo, hence wrapped in a cast)
     if exp_text.startswith(("Lit.", "(Lit.")) and got_text.startswith(("Lit.", "(Lit.")):
         return "literal_class"
     if exp_text.startswith(("Pragma", "(Pragma")):
